@@ -14,6 +14,15 @@ if ! git apply $M/patch.diff 2>>$R; then echo "RESULT $ID/$TAG: PATCH-DOES-NOT-A
 if ! ( make -j8 && make -j8 xcmtest ) >/dev/null 2>$OUT/$ID-$TAG.build.log; then echo "RESULT $ID/$TAG: BUILD-FAILS" >> $R; cd /; git -C /repo worktree remove --force $W; exit 3; fi
 ./xcmtest -c -v -p 6 > $OUT/$ID-$TAG.suite.log 2>&1
 BAD=$(grep -E "FAILED|TIMED OUT" $OUT/$ID-$TAG.suite.log | sed 's/\x1b\[[0-9;]*m//g' | awk -F: '{print $1":"$2}' | grep -v -E "xcm:dns$|xcm:dns_multiple_address_probing|xcm:tcp_connect_timeout|xcm:net_ns_switch|_dns_timeout|dns_algorithm_smoke_test|tls_invalid_credential_values" | tr '\n' ' ')
+# tests that fail only because other suites run concurrently in this sandbox (shared network namespaces, load): re-run alone
+STILL=""
+for t in $BAD; do
+  okrun=0
+  for i in 1 2; do if ./xcmtest -c -v $t > $OUT/$ID-$TAG.rerun.log 2>&1 && ! grep -q -E "FAILED|TIMED OUT" $OUT/$ID-$TAG.rerun.log; then okrun=1; break; fi; done
+  [ $okrun -eq 1 ] || STILL="$STILL $t"
+done
+[ -n "$BAD" ] && echo "re-run alone: [$BAD] -> still failing: [$STILL]" >> $R
+BAD=$STILL
 echo "suite: $(tail -1 $OUT/$ID-$TAG.suite.log | sed 's/\x1b\[[0-9;]*m//g')" >> $R
 echo "suite unexpected failures: [$BAD]" >> $R
 ( cd $M && timeout 300 bash ./run.sh $W ) > $OUT/$ID-$TAG.demo-mut.log 2>&1; RM=$?
